@@ -94,7 +94,7 @@ Definition resolve_namespaces (k : vkind) (namespace parent_ns : option str) : l
 
 (* elements.default_namespace *)
 Definition default_namespace (nss : list str) : option str :=
-  find (fun ns => match ns with [] => false | 35 :: _ => false | _ => true end) nss.
+  find (fun ns => match ns with [] => false | x :: _ => negb (N.eqb x 35) end) nss.
 
 Definition is_class_type (t : ptype) : bool := match t with TClass _ => true | _ => false end.
 Definition first_class (ts : list ptype) : option cls :=
